@@ -101,6 +101,11 @@ var e2Scenarios = map[string]e2Scenario{
 		{txn(at(b1+1, put("p0", 12), add("m", 1), cat("sc", "a")), at(1, put("p0", 11), add("m", 1), add("im", 3)))},
 		{txn(at(1, put("p1", 21), add("m", 2), add("im", 5)), at(b1+1, put("p1", 22), add("m", 2), cat("sc", "b")))},
 	}},
+	// as 2blk, but the two-block writer visits block 1 before block 0 with the same columns in both
+	"2blk-desc": {Name: "2blk-desc", Rows: []uint32{1, 2, b1 + 1, b1 + 2}, Writers: [][]TxnSpec{
+		{txn(at(b1+1, put("p0", 12), add("m", 1), cat("sc", "a")), at(1, put("p0", 11), add("m", 1), cat("sc", "b")))},
+		{txn(at(1, put("p1", 21), add("m", 100), cat("sc", "c")))},
+	}},
 	// three mergers on one row
 	"3w": {Name: "3w", Rows: []uint32{1, 2}, Writers: [][]TxnSpec{
 		{txn(at(1, add("m", 1), add("im", 5), cat("sc", "a"), put("p0", 1), rmg(1, "a")))},
@@ -523,6 +528,24 @@ func (r *e2Run) oracleStream() string {
 // oracleMerges: C09 — the primary's final state per block is the fold of every commit in apply order.
 func (r *e2Run) oracleMerges(final *State) string {
 	order := r.applyOrder()
+	// the fold is over the commits that were applied: a committed transaction whose changes to a block
+	// were never applied at all (no commit for that block) would be missing from both sides
+	applied := map[[3]int]bool{}
+	for _, c := range r.log {
+		applied[[3]int{c.Task, c.Txn, int(c.Block)}] = true
+	}
+	for wi, ts := range r.specs {
+		for ti, t := range ts {
+			if r.errs[[2]int{wi, ti}] != nil {
+				continue
+			}
+			for b := range changedBlocks(t.Ops) {
+				if !applied[[3]int{wi, ti, int(b)}] {
+					return fmt.Sprintf("W%d.t%d committed, but its changes to block %d were never applied (no commit for that block): committed merges are lost", wi, ti, b)
+				}
+			}
+		}
+	}
 	for _, b := range r.blocks() {
 		states := r.fold(b, order[b])
 		if d := cmpBlock(final, states[len(states)-1], b); d != "" {
